@@ -441,6 +441,9 @@ S4_MORE["C20"] = ("Azimuthal contour under contract: _azimuthal_mesh_from_hvsr (
                  "180 degrees, row r the mean curve of azimuth r for the distribution asked for and the closing row that of the first azimuth; plot_azimuthal_contour_2d - one "
                  "filled contour of exactly those three grids in that order, one marker line of the per-azimuth mean-curve peak frequencies (same distribution) against the "
                  "object's azimuth list, frequency axis from the first to the last frequency, nothing written to the object.")
+S4_MORE["C14"] = ("The public layer of HvsrSpatial under contract: __init__ (the sensors in the order given in own storage; fewer than three or not (N, 2) refused), spatial_weights "
+                 "((weights, indices) exactly as _voronoi_weights returns them for the caller's boundary; another method refused), bounded_voronoi (clipped by the mask made from "
+                 "the caller's boundary), _boundary_to_mask (the convex hull of exactly the boundary rows taken as points (x, y); not (N, 2) refused).")
 for _k, _v in S4_MORE.items():
     S4[_k] = ((S4[_k][0] + " " + _v,) + tuple(S4[_k][1:])) if _k in S4 else (_v, None, None)
 for _pid, (_t, _n, _tech) in S4.items():
